@@ -70,6 +70,17 @@ def check_accept(*types):
 def extract_json(body, schema):
     """Extract JSON from a body and validate with the provided schema."""
     try:
+        return _extract_json(body, schema)
+    except RecursionError:
+        # A document nested deeper than the parser, the validator or the
+        # formatting of the validation error can go.
+        raise webob.exc.HTTPBadRequest(
+            'Malformed JSON: the document is nested too deeply',
+            json_formatter=json_error_formatter)
+
+
+def _extract_json(body, schema):
+    try:
         data = jsonutils.loads(body)
     except ValueError as exc:
         raise webob.exc.HTTPBadRequest(
